@@ -23,7 +23,7 @@ func (Engine) DistinctRule() string {
 		"distinct = distinct (configuration, method, path, header kinds, file-system call/fault sequence, outcome class); non-trivial = the request reached the file system (at least one FS call, or a write by Static) or a fault/mutation fired"
 }
 
-var prefixes = []string{"", "public", "/public", "public/", "/public/", "/pre/fix"}
+var prefixes = []string{"", "public", "/public", "public/", "/public/", "/pre/fix", "/v1.0", "a+b/"}
 var indexes = []string{"", "home.htm", "index.html", "missing.html", "/home.htm"}
 
 // Paths relative to the prefix.
@@ -37,7 +37,7 @@ var relPaths = []string{
 }
 
 // Paths that only look like the prefix "/public".
-var lookAlikes = []string{"/publicpublic/a.txt", "/public/public", "/public%2Fa.txt", "/publ%69c/a.txt", "/public%2f..%2fsecret.txt", "/pre%2Ffix/a.txt", "/x/../public/a.txt", "//public/a.txt", "/./public/a.txt", "/x/../public/sub", "/x/../public/sub/", "/public/../public/a.txt", "/x/../pre/fix/a.txt", "/pre//fix/a.txt", "/publicity/page.html", "/public.env", "/publicapp.js", "/publi", "/publica.txt", "/Public/a.txt", "/public../outside/secret.txt", "/publicindex.html", "/other/a.txt", "/a.txt", "/pre/fixa.txt", "/pre/a.txt", "/pre"}
+var lookAlikes = []string{"/publicpublic/a.txt", "/public/public", "/public%2Fa.txt", "/publ%69c/a.txt", "/public%2f..%2fsecret.txt", "/pre%2Ffix/a.txt", "/x/../public/a.txt", "//public/a.txt", "/./public/a.txt", "/x/../public/sub", "/x/../public/sub/", "/public/../public/a.txt", "/x/../pre/fix/a.txt", "/pre//fix/a.txt", "/publicity/page.html", "/public.env", "/publicapp.js", "/publi", "/publica.txt", "/Public/a.txt", "/public../outside/secret.txt", "/publicindex.html", "/other/a.txt", "/a.txt", "/pre/fixa.txt", "/pre/a.txt", "/pre", "/v1x0/a.txt", "/v100/sub/", "/v1/0/a.txt", "/v1.0x/a.txt", "/aab/a.txt", "/ab/a.txt", "/a+bb/a.txt"}
 
 var methods = []string{"GET", "HEAD", "POST", "PUT", "DELETE", "get", "OPTIONS"}
 
@@ -89,7 +89,7 @@ func (Engine) Run(t *tape.Tape, o eng.Opts) *eng.Result {
 	cfg := sched.Config{Sched: t.Stream("sched"), Time: t.Stream("time"), MaxSteps: world.StepCap(12000), KeepLog: o.Trace}
 	world.PickPolicy(sw, &cfg)
 
-	spec := &world.StaticSpec{Prefix: prefixes[gen.Weighted(3, 2, 3, 1, 1, 1)], Index: indexes[gen.Weighted(4, 2, 1, 1, 1)], ETag: gen.Intn(2) == 1,
+	spec := &world.StaticSpec{Prefix: prefixes[gen.Weighted(6, 4, 6, 2, 2, 2, 1, 1)], Index: indexes[gen.Weighted(4, 2, 1, 1, 1)], ETag: gen.Intn(2) == 1,
 		Expires: gen.Intn(3) == 1, CacheControl: gen.Intn(3) == 1, Logging: gen.Intn(4) == 1, UseDirectory: backing == 2, DefaultDir: backing == 3}
 	setup := &world.Setup{Env: 1, Static: spec}
 	setup.Mw = []world.HSpec{{Kind: world.HkToken}}
